@@ -23,6 +23,7 @@ canonical spelling, so a rule sees the same tree whichever one the author chose:
   D14 [a, b][k]                          -> the k-th element (literal sequence, constant k)
   D16 x.reshape((a, b)) -> x.reshape(a, b) (view / expand / repeat / permute / tile alike); D17 X[a:b][k] -> X[a + k]
   D18 aliases of torch sub-modules (`nn`, `F`) -> `torch.nn`, `torch.nn.functional`; D19 `x.add_(y)` as a statement -> `x += y` (sub_/mul_/div_ alike)
+  D14b (a, b, c)[1:] -> (b, c); D20 f(*(a, b)) -> f(a, b)
   D15 [*xs]                              -> list(xs)
   D12 X.m(a, q=b) -> X.m(a, b) when q is the next positional parameter of every definition of method m in the package
 
@@ -62,6 +63,11 @@ def attr_chain_(node: ast.AST) -> Optional[str]:
         parts.append(node.id)
         return ".".join(reversed(parts))
     return None
+
+
+def _loop_built(seq: ast.AST) -> bool:
+    """a list literal that stands for the elements a loop / comprehension produces (the walker's one-iteration form): not a fixed-length literal"""
+    return any(getattr(x, "_iter_of", None) for x in getattr(seq, "elts", []))
 
 
 def _chain_root(node: ast.AST) -> Optional[str]:
@@ -141,6 +147,16 @@ class Canon(ast.NodeTransformer):
     # ------------------------------------------------------------ calls
     def visit_Call(self, node: ast.Call):
         self.generic_visit(node)
+        # D20 f(*(a, b)) -> f(a, b)
+        if any(isinstance(a, ast.Starred) and isinstance(a.value, (ast.List, ast.Tuple)) and not _loop_built(a.value) and not any(isinstance(x, ast.Starred) for x in a.value.elts) for a in node.args):
+            new_args = []
+            for a in node.args:
+                if isinstance(a, ast.Starred) and isinstance(a.value, (ast.List, ast.Tuple)) and not _loop_built(a.value) and not any(isinstance(x, ast.Starred) for x in a.value.elts):
+                    new_args.extend(a.value.elts)
+                else:
+                    new_args.append(a)
+            node.args = new_args
+            self.count += 1
         has_star = any(isinstance(a, ast.Starred) for a in node.args) or any(k.arg is None for k in node.keywords)
         tf = _torch_fn(node)
         f = node.func
@@ -288,8 +304,23 @@ class Canon(ast.NodeTransformer):
                 base = (lo.value if lo is not None else 0) + sl.value
                 new = ast.Subscript(value=node.value.value, slice=ast.copy_location(ast.Constant(value=base), node), ctx=ast.Load())
                 return self._hit(new, node)
+        # D14b (a, b, c)[1:] -> (b, c) (constant slice of a literal sequence)
+        if isinstance(node.value, (ast.List, ast.Tuple)) and isinstance(sl, ast.Slice) and isinstance(node.ctx, ast.Load) and not _loop_built(node.value) and not any(isinstance(x, ast.Starred) for x in node.value.elts):
+            def cval(b):
+                if b is None:
+                    return True, None
+                if isinstance(b, ast.Constant) and isinstance(b.value, int) and not isinstance(b.value, bool):
+                    return True, b.value
+                if isinstance(b, ast.UnaryOp) and isinstance(b.op, ast.USub) and isinstance(b.operand, ast.Constant) and isinstance(b.operand.value, int):
+                    return True, -b.operand.value
+                return False, None
+            (o1, lo), (o2, hi), (o3, st) = cval(sl.lower), cval(sl.upper), cval(sl.step)
+            if o1 and o2 and o3 and st != 0:
+                elts = node.value.elts[slice(lo, hi, st)]
+                new = type(node.value)(elts=list(elts), ctx=ast.Load())
+                return self._hit(new, node)
         # D14 [a, b][0] -> a (constant index into a literal sequence without starred elements)
-        if isinstance(node.value, (ast.List, ast.Tuple)) and isinstance(sl, ast.Constant) and isinstance(sl.value, int) and not isinstance(sl.value, bool) \
+        if isinstance(node.value, (ast.List, ast.Tuple)) and isinstance(sl, ast.Constant) and isinstance(sl.value, int) and not isinstance(sl.value, bool) and not _loop_built(node.value) \
                 and not any(isinstance(x, ast.Starred) for x in node.value.elts) and -len(node.value.elts) <= sl.value < len(node.value.elts):
             return self._hit(node.value.elts[sl.value], node)
         elts = list(sl.elts) if isinstance(sl, ast.Tuple) else [sl]
